@@ -17,7 +17,7 @@ from .astutil import FUNC_TYPES, attr_chain, dotted, norm
 class EffectDomain(DefaultDomain):
     track_lists = True
 
-    def __init__(self, classes, attrs=None, track=None, results=None, raises=None, consts=True, inline=True, log_cap=12, lacks=(), oracle=None):
+    def __init__(self, classes, attrs=None, track=None, results=None, raises=None, consts=True, inline=True, log_cap=12, lacks=(), oracle=None, ctors=()):
         self.classes = classes
         self.attrs = dict(attrs or {})
         self.track = track or (lambda d: False)
@@ -28,6 +28,7 @@ class EffectDomain(DefaultDomain):
         self.log_cap = log_cap
         self.lacks = set(lacks)             # {(object id, attribute)} a wrapped object does not have
         self.oracle = oracle               # (name, pos, kw) -> [("val", v) | ("exc", e)] | None: behaviour of a wrapped object's method
+        self.ctors = set(ctors)             # callables whose result is the symbolic object ("new", name, args, kwargs)
 
     # -- values -------------------------------------------------------------------------
     def constant(self, node):
@@ -44,8 +45,10 @@ class EffectDomain(DefaultDomain):
     def truth(self, value):
         if isinstance(value, tuple) and len(value) == 2 and value[0] == "const":
             return "T" if value[1] else "F"
-        if isinstance(value, tuple) and value[:1] in (("bound",), ("wobj",)):
+        if isinstance(value, tuple) and value[:1] in (("bound",), ("wobj",), ("new",)):
             return "T"
+        if isinstance(value, tuple) and value[:1] == ("attr",):
+            return "TF"
         if isinstance(value, tuple) and value[:1] == ("tuple",):
             return "T" if len(value) > 1 else "F"
         if isinstance(value, tuple) and value[:1] == ("kwdict",):
@@ -53,8 +56,10 @@ class EffectDomain(DefaultDomain):
         return super().truth(value)
 
     def is_none(self, value):
-        if isinstance(value, tuple) and value[:1] in (("const",), ("bound",), ("wobj",), ("tuple",), ("kwdict",), ("ret",), ("arg",)):
+        if isinstance(value, tuple) and value[:1] in (("const",), ("bound",), ("wobj",), ("tuple",), ("kwdict",), ("ret",), ("arg",), ("new",)):
             return "F"
+        if isinstance(value, tuple) and value[:1] == ("attr",):
+            return "TF"   # the value of an attribute of a symbolic object is anything
         return super().is_none(value)
 
     def load_attr(self, chain, st, fr):
@@ -85,11 +90,21 @@ class EffectDomain(DefaultDomain):
             for r in interp.eval(func.value, st, fr):
                 if r.kind == "val" and isinstance(r.value, tuple) and r.value[:1] == ("wobj",):
                     return ("bound", r.value[1], func.attr)
+                if r.kind == "val" and isinstance(r.value, tuple) and r.value[:1] == ("new",):
+                    return ("bound", r.value, func.attr)
             return None
+        if isinstance(func, ast.Attribute) and isinstance(func.value, ast.Call) and (dotted(func.value.func) or "") in self.ctors:
+            return ("ctor-call", func.value, func.attr)
         return None
 
     def _call_bound(self, interp, bound, call, st, fr):
-        name = f"{bound[1]}.{bound[2]}"
+        if bound[0] == "ctor-call":
+            out = []
+            for r in interp.eval(bound[1], st, fr):
+                out.extend([r] if r.kind == "exc" else self._call_bound(interp, ("bound", r.value, bound[2]), call, r.state, fr))
+            return out
+        obj = bound[1]
+        name = f"<{obj[1]}>.{bound[2]}" if isinstance(obj, tuple) else f"{obj}.{bound[2]}"
         if (bound[1], bound[2]) in self.lacks:
             return [exc(("exc", "AttributeError"), st)]
         out = []
@@ -112,6 +127,8 @@ class EffectDomain(DefaultDomain):
                     kw.extend(v[1])
                 else:
                     kw.append((k.arg or "**", v))
+            if isinstance(obj, tuple):
+                pos = [obj] + pos
             log = r.state.get("ev.calls", ())
 
             def logged(tag):
@@ -121,7 +138,7 @@ class EffectDomain(DefaultDomain):
 
             outcomes = self.oracle(name, tuple(pos), tuple(kw)) if self.oracle is not None else None
             if outcomes is None:
-                outcomes = [("val", v) for v in self.results.get(name, self.results.get("*." + bound[2], [("ret", bound[1], bound[2])]))]
+                outcomes = [("val", v) for v in self.results.get(name, self.results.get("*." + bound[2], [("ret", name if isinstance(obj, tuple) else obj, bound[2])]))]
                 outcomes += [("exc", e) for e in self.raises.get(name, self.raises.get("*." + bound[2], []))]
             for kind, v in outcomes:
                 if kind == "val":
@@ -151,8 +168,27 @@ class EffectDomain(DefaultDomain):
                         out.append(val(r.value[2], r.state))
                     else:
                         out.append(exc(("exc", "AttributeError"), r.state))
+                elif d == "getattr" and isinstance(obj, tuple) and obj[:1] in (("arg",), ("new",), ("attr",)) and isinstance(name, tuple) and name[:1] in (("const",), ("arg",)):
+                    out.append(val(("attr", obj, name), r.state))
                 else:
                     out.append(val(("bool",) if d == "hasattr" else TOP, r.state))
+            return out
+        if d in self.ctors:
+            out = []
+            pos = [a.value if isinstance(a, ast.Starred) else a for a in call.args]
+            for r in interp.eval_list(pos + [k.value for k in call.keywords], st, fr):
+                out.append(r if r.kind == "exc" else val(("new", d.split(".")[-1], tuple(r.value[: len(pos)]), tuple((k.arg or "**", v) for k, v in zip(call.keywords, r.value[len(pos):]))), r.state))
+            return out
+        if d in ("sorted", "reversed") and len(call.args) == 1 and not call.keywords:
+            out = []
+            for r in interp.eval(call.args[0], st, fr):
+                if r.kind == "exc":
+                    out.append(r)
+                elif isinstance(r.value, tuple) and r.value[:1] in (("tuple",), ("lazyseq",)):
+                    els = r.value[1:]
+                    out.append(val(("tuple",) + (tuple(reversed(els)) if d == "reversed" else tuple(els)), r.state))
+                else:
+                    out.append(val(TOP, r.state))
             return out
         if isinstance(call.func, ast.Call):
             out = []
